@@ -105,8 +105,9 @@ func runParent() int {
 	}
 	run.Rule("inputs per (entry point, protocol) = pure function of (seed, tier): (i) every byte string of length 0-1 and (thorough) 2, fills of length 0-64 with 00/FF/counter; " +
 		"(v) on the stream entry points one run of 8-16 MiB of a repeated small unit (00000000, a minimal frame with an empty header block, a frame the receiver skips) per protocol; (iv) structurally valid frames with 600 KiB - 1 MiB method names, header values, string and binary arguments (larger than the bounded buffers on the way); (ii) structured mutations of valid fixture frames built with the reference codec (every Frugal and Thrift size field set to 0,1,2,3,len-1,len+1,7FFFFFFF,80000000,FFFFFFFF; version byte; truncation at every offset with and without a consistent frame size; duplicate/missing/non-numeric _opid; _timeout extremes; method name; message type) - all of them in thorough, a stratified PRNG sample in quick; " +
-		"(iii) PRNG byte flips and splices. Each input is logged, delivered to a receiver living in a child process, and followed by a well-formed canary whose handling is verified. distinct = entry point x protocol x mutation class x delivery variant, counted when at least one such input was delivered")
+		"(iii) PRNG byte flips and splices; (vi) on the server request path, well-formed requests to known methods (getBig, whose reply is bigger than its request, add, basePing, echo) whose total size is swept over limit-99 .. limit (+ 5 sizes above) of the 1 MiB bounded reply buffer, with all of the padding in the values of the headers every reply has to echo (_opid / _cid / both), with and without _timeout (class edgehdr). Each input is logged, delivered to a receiver living in a child process, and followed by a well-formed canary whose handling is verified. distinct = entry point x protocol x mutation class x delivery variant, counted when at least one such input was delivered")
 	run.Assume("Apache Thrift, nats.go, the embedded nats-server, go-stomp and net/http are trusted; the STOMP broker is verif/rig's; a child that runs out of memory is excluded (memory amplification is not part of the statement)")
+	run.Assume("while a class edgehdr input (flat, well-formed: 2-3 headers, a known method, scalar arguments) is in flight the child bounds goroutine stacks to 2 MiB instead of 256 MiB, so that recursion which does not end reaches the runtime's fatal stack overflow after thousands of rounds instead of millions")
 	run.Assume("the panic signature is the first frame of the panicking goroutine inside github.com/Workiva/frugal/lib/go (function name, no line)")
 
 	// plan
@@ -295,6 +296,9 @@ func runParent() int {
 
 // inputSize is the length in bytes of a logged input ("rle:<unit>*<n>" or hex).
 func inputSize(h string) int {
+	if n, ok := labelBytes(h); ok {
+		return n
+	}
 	if strings.HasPrefix(h, "rle:") {
 		if k := strings.Index(h, "*"); k > 4 {
 			n, _ := strconv.Atoi(h[k+1:])
